@@ -255,3 +255,53 @@ def replay_exec(rec):
 def casadi_numeric_for(topo):
     """lanes must be numeric on the CasADi side when phi is given (`lanes_drop == 0` is evaluated in Python)."""
     return {f"lam_{l.name}": 1 + (k % 3) for k, l in enumerate(topo.links)} if topo.phi else None
+
+
+# ----------------------------------------------------------------------------------------
+# cvc5 cross-check of recorded z3-unsat queries (thorough tiers; DESIGN 2.7)
+# ----------------------------------------------------------------------------------------
+def start_recording():
+    discharge.RECORD = []
+
+
+def take_recorded(acc: "Acc", n=3):
+    rec = discharge.RECORD or []
+    discharge.RECORD = None
+    # spread the picks over the recorded list
+    step = max(1, len(rec) // n) if rec else 1
+    acc.d["recorded_smt2"] = rec[::step][:n]
+
+
+def _cvc5_one(smt2):
+    t0 = time.time()
+    r = discharge.cvc5_check(smt2, 3000)
+    return {"item": "cvc5", "res": r, "s": round(time.time() - t0, 2), "violations": [], "inconclusive": [], "samples": [], "levels": {}}
+
+
+def cvc5_crosscheck(results, limit=48, serial=False):
+    """re-decide a sample of the queries z3 answered `unsat` with cvc5 1.4 (wheel). 'sat' from cvc5 = disagreement."""
+    from . import harness
+
+    qs = []
+    for r in results:
+        qs += r.get("recorded_smt2", []) if isinstance(r, dict) else []
+    if not qs:
+        return {"queries": 0}, []
+    step = max(1, len(qs) // limit)
+    qs = qs[::step][:limit]
+    out = harness.pmap(_cvc5_one, qs, serial)
+    stats = {"queries": len(qs), "unsat": 0, "unknown_or_timeout": 0, "sat_DISAGREEMENT": 0, "error": 0, "seconds": round(sum(o.get("s", 0) for o in out), 1)}
+    problems = []
+    for o in out:
+        r = o.get("res", "error")
+        if r == "unsat":
+            stats["unsat"] += 1
+        elif r == "sat":
+            stats["sat_DISAGREEMENT"] += 1
+            problems.append("cvc5 answers sat on a query z3 answered unsat")
+        elif r == "unknown":
+            stats["unknown_or_timeout"] += 1
+        else:
+            stats["error"] += 1
+            problems.append(f"cvc5 {r}")
+    return stats, problems
